@@ -258,9 +258,25 @@ class Writer:
                 for a, w in zip(b.aligns, widths):
                     delim.append((':' if a == 'center' else '-') + '-' * (w - 2) + (':' if a in ('center', 'right') else '-'))
 
-            def rowline(cs):
-                return ind + '| ' + ' | '.join(cs) + ' |'
-            out = [L(rowline(rows[0]), False, [b, ('row', b, 0)]), L(rowline(delim))]
+            def rowline(cs, is_delim=False):
+                if self.canonical or 'table_spelling' in self.exclude:
+                    return ind + '| ' + ' | '.join(cs) + ' |'
+                # GFM: the outer pipes are optional and cells may be padded at will.  The leading pipe stays when the
+                # row could otherwise begin another block, the trailing one when the last cell is empty (it would vanish)
+                # and one of them when the row has a single cell (no pipe, no table)
+                pad = lambda: ' ' * t.weighted([(3, 1), (2, 0), (1, 2)])
+                lead = not (cs[0][:1].isalpha() or (is_delim and cs[0][:1] == ':')) or t.chance(128)
+                trail = cs[-1] == '' or t.chance(128)
+                if len(cs) == 1 and not lead and not trail:
+                    lead = True
+                def rpad(c):
+                    p = pad()
+                    if not p and c.endswith('\\') and 'cell_backslash_pipe' in self.exclude:
+                        p = ' '         # recorded finding F34: '\\\\|' is read as an escaped pipe
+                    return p
+                body = '|'.join((pad() if (i or lead) else '') + c + (rpad(c) if (i < len(cs) - 1 or trail) else '') for i, c in enumerate(cs))
+                return ind + ('|' if lead else '') + body + ('|' if trail else '')
+            out = [L(rowline(rows[0]), False, [b, ('row', b, 0)]), L(rowline(delim, True))]
             for ri, r in enumerate(rows[1:]):
                 out.append(L(rowline(r), False, [('row', b, ri + 1)]))
             return out
